@@ -406,8 +406,11 @@ def _gen_files(doc: Any, package: str = "sk_twin", as_yaml: bool = False, **cf: 
 
             root.mkdir(parents=True, exist_ok=True)
             dp = root / "doc.yaml"
+            # block-style YAML with the mapping order of the document preserved (the safe dumper would sort keys)
+            y = YAML()
+            y.default_flow_style = False
             with dp.open("w") as f:
-                YAML(typ="safe").dump(doc, f)
+                y.dump(doc, f)
             cfg = gen.make_config(dp, root / package, package_name_override=package, **cf)
             with contextlib.redirect_stdout(io.StringIO()):
                 errs = opc.generate(config=cfg)
@@ -499,3 +502,61 @@ def replay_ref_inline(w: dict) -> dict:
     b, eb = _gen_files(inline_twin(d))
     diff = sorted(k for k in set(a) | set(b) if a.get(k) != b.get(k))
     return {"reproduced": bool(diff) or ea != eb, "observed": diff[:8]}
+
+
+# ------------------------------------------------------------------------------------------------ C17 twins
+def _rewrite(node: Any, fn: Any) -> Any:
+    if isinstance(node, dict):
+        node = fn({k: _rewrite(v, fn) for k, v in node.items()})
+        return node
+    if isinstance(node, list):
+        return [_rewrite(v, fn) for v in node]
+    return node
+
+
+def equivalent_documents(tier: str = "quick", known: list | None = None, **_: Any) -> dict:
+    """C17 replay: notation rewrites give byte-identical trees."""
+    from . import skeletons as sk
+    from .skeletons import INT, STR, doc, obj, ref
+
+    wit, n = [], 0
+
+    def compare(label: str, a: dict, b: dict, yaml_b: bool = False) -> None:
+        nonlocal n
+        n += 1
+        fa, ea = _gen_files(a)
+        fb, eb = _gen_files(b, as_yaml=yaml_b)
+        diff = sorted(k for k in set(fa) | set(fb) if fa.get(k) != fb.get(k))
+        if diff or ea != eb:
+            wit.append({"what": f"equivalent documents differ: {label}", "input": {"label": label}, "observed": {"differing_files": diff[:6], "errors_a": ea[:2], "errors_b": eb[:2]}, "reproduced": True, "replay_func": "vlib.replay_checks:replay_equivalent"})
+
+    # JSON vs YAML serialisation of every skeleton
+    for name, d in sorted(all_skeleton_docs().items()):
+        if tier == "quick" and name.split(":")[1] not in ("nested", "unions", "params", "enums"):
+            continue
+        compare(f"json-vs-yaml:{name}", d, d, yaml_b=True)
+    # 3.0 nullable vs 3.1 type list
+    base30 = doc({"M": obj({"a-s": {"type": "string", "nullable": True}, "b-i": {"type": "integer", "nullable": True}, "c-l": {"type": "array", "items": STR, "nullable": True}, "d-m": {"nullable": True, "allOf": [ref("Leaf")]}}, ["a-s"]), "Leaf": obj({"x": INT})}, version="3.0.3")
+
+    def to31(nd: dict) -> dict:
+        if nd.get("nullable") is True and isinstance(nd.get("type"), str):
+            nd = {k: v for k, v in nd.items() if k != "nullable"}
+            nd["type"] = [nd["type"], "null"]
+        elif nd.get("nullable") is True and "allOf" in nd:
+            nd = {"oneOf": [{"type": "null"}, nd["allOf"][0]]}  # member order as the normaliser writes it (order is not part of the rewrite)
+        return nd
+
+    d31 = _rewrite(copy.deepcopy(base30), to31)
+    d31["openapi"] = "3.1.0"
+    compare("nullable-3.0-vs-3.1-type-list", base30, d31)
+    # enum with null vs explicit union; single-element wrappers vs bare reference
+    e1 = doc({"E": obj({"e": {"enum": ["a", "b", None]}}), "W": obj({"w1": {"allOf": [ref("Leaf")]}, "w2": {"oneOf": [ref("Leaf")]}, "w3": {"anyOf": [ref("Leaf")]}}), "Leaf": obj({"x": INT})})
+    e2 = doc({"E": obj({"e": {"oneOf": [{"type": "null"}, {"enum": ["a", "b"]}]}}), "W": obj({"w1": ref("Leaf"), "w2": ref("Leaf"), "w3": ref("Leaf")}), "Leaf": obj({"x": INT})})
+    compare("enum-with-null-vs-union+wrappers-vs-bare-ref", e1, e2)
+    return result("violated" if wit else "holds", f"{n} pairs of equivalent documents generate byte-identical trees", queries=n, witnesses=wit[:4], cases=["json-vs-yaml", "nullable-30-vs-31", "enum-null-vs-union", "single-ref-wrappers"], stubs=["replay oracle: concrete runs, not a solver verdict"])
+
+
+def replay_equivalent(w: dict) -> dict:
+    r = equivalent_documents(tier="thorough")
+    hit = [x for x in r["witnesses"] if x["input"]["label"] == w["input"]["label"]]
+    return {"reproduced": bool(hit), "observed": hit[0]["observed"] if hit else None}
